@@ -8,7 +8,7 @@ use std::cell::RefCell;
 use std::rc::Rc;
 use zmq_simrt as rt;
 
-pub const NATTACKS: u64 = 31;
+pub const NATTACKS: u64 = 33;
 
 fn be64(x: u64) -> Vec<u8> {
     x.to_be_bytes().to_vec()
@@ -119,6 +119,18 @@ fn attack(n: u64, ctx: &Ctx) -> (Vec<u8>, &'static str) {
             }
             f.extend(std::iter::repeat(7u8).take(body));
             (f, "huge frame declared and hundreds of KiB of it delivered")
+        }
+        31 | 32 => {
+            // a long run of well-formed commands after which the message the socket may be waiting
+            // for does arrive: whatever a socket does with a command it has no use for, it must
+            // not cost stack or memory per command
+            let (cnt, cmd): (usize, Vec<u8>) = if n == 31 { (3000, vec![4, 6, 5, b'R', b'E', b'A', b'D', b'Y']) } else { (30_000, rc::ready(&[(b"Socket-Type", b"DEALER"), (b"X-n", b"0123456789")])) };
+            let mut f = Vec::with_capacity(cnt * cmd.len() + 16);
+            for _ in 0..cnt {
+                f.extend_from_slice(&cmd);
+            }
+            f.extend(rc::encode_msg(&[vec![], b"late".to_vec()]));
+            (f, if n == 31 { "3000 bare READY commands and then a message" } else { "30000 READY commands with properties and then a message" })
         }
         _ => {
             let mut f = Vec::new();
@@ -331,7 +343,7 @@ fn catalogue(ctx: &mut Ctx) {
     if disturbed {
         // attacks that deliver hundreds of KiB are not combined with one-byte chunking: a million
         // reads exceed the step budget without telling anything about the property
-        world::swarm(ctx, SwarmOpts { tiny_chunks: !(24..=30).contains(&a), ..SwarmOpts::default() });
+        world::swarm(ctx, SwarmOpts { tiny_chunks: !(24..=32).contains(&a), ..SwarmOpts::default() });
     } else {
         world::plain(ctx);
     }
@@ -416,7 +428,7 @@ pub fn def() -> PropDef {
     PropDef {
         id: "C03",
         level: "exploration",
-        rule: "catalogue: the case index enumerates socket kind (9) x stage {first bytes, after a valid greeting, after a valid handshake} x 31 structure-aware attacks (truncated/oversized commands, property lengths beyond the frame, non-UTF-8 names, 64-bit sizes 2^31..2^64-1 on message and command frames, thousands of MORE frames in one segment, huge declared frames of which 9 KiB .. 1 MiB are really delivered, bad signature/version/mechanism, reserved flags, random bytes), first undisturbed then under drawn transport/schedule, with and without a closing attacker; alphabet: all 19607 strings of length <= 5 over {00,01,02,04,06,05,ff} x {after greeting, after handshake} (thorough: enumerated; quick: sampled); mutated: random mutations of a valid stream; a healthy peer exchanges tagged traffic before and after; oracles: no panic in any task or API call, worker process survives (stack overflow / abort are seen as signals by the driver), largest single allocation after the first hostile byte <= 256 KiB + 64 x bytes sent, healthy traffic still delivered; non-trivial = judgement reached; distinct = distinct (case, plan, schedule, transport)",
+        rule: "catalogue: the case index enumerates socket kind (9) x stage {first bytes, after a valid greeting, after a valid handshake} x 33 structure-aware attacks (long runs of well-formed commands after the handshake, truncated/oversized commands, property lengths beyond the frame, non-UTF-8 names, 64-bit sizes 2^31..2^64-1 on message and command frames, thousands of MORE frames in one segment, huge declared frames of which 9 KiB .. 1 MiB are really delivered, bad signature/version/mechanism, reserved flags, random bytes), first undisturbed then under drawn transport/schedule, with and without a closing attacker; alphabet: all 19607 strings of length <= 5 over {00,01,02,04,06,05,ff} x {after greeting, after handshake} (thorough: enumerated; quick: sampled); mutated: random mutations of a valid stream; a healthy peer exchanges tagged traffic before and after; oracles: no panic in any task or API call, worker process survives (stack overflow / abort are seen as signals by the driver), largest single allocation after the first hostile byte <= 256 KiB + 64 x bytes sent, healthy traffic still delivered; non-trivial = judgement reached; distinct = distinct (case, plan, schedule, transport)",
         assumptions: &["run thread stack 2 MiB (tokio's worker default) and the library built unoptimised with debug assertions: both are documented parameters of the stack-depth clause", "allocation failure itself is not injected; the size of requests is judged"],
         strata: vec![
             Stratum { name: "catalogue", quick: 27 * NATTACKS * 8, thorough: (27 * NATTACKS * 200) * 10, exhaustive: (true, true), run: catalogue, what: "kind x stage x attack catalogue" },
